@@ -60,8 +60,12 @@ def _tree_job(mirpath, D, mind, tier, seed, DMAX):
             kinds = {path_code(o)[1] for o in outs if o['kind'] != 'panic'}
             for k in ('maxdepth', 'turn_acc', 'turn_rej', 'div', 'err'): rep.cover('C03 stop reason reachable: ' + k, k in kinds)
     except Exception as e:
-        import traceback; traceback.print_exc()
-        rep.errors.append('tree job D=%d mindepth=%d: %s: %s' % (D, mind, type(e).__name__, str(e)[:200]))
+        from ..vm import BoundExceeded
+        if isinstance(e, BoundExceeded):
+            rep.violated('C03 maxdepth=%d mindepth=%d: the doubling loop terminates' % (D, mind), 'tree.loop_bound', 'the doubling loop of nuts::draw runs more than maxdepth = %d times (unwinding assertion failed at %s): the tree never reaches maxdepth / the depth does not advance' % (D, e), model={'maxdepth': D, 'mindepth': mind})
+        else:
+            import traceback; traceback.print_exc()
+            rep.errors.append('tree job D=%d mindepth=%d: %s: %s' % (D, mind, type(e).__name__, str(e)[:200]))
     for v in rep.violations:
         if v.get('model') is not None: v['model'] = __import__('json').loads(__import__('json').dumps(v['model'], default=str))
     rep.functions = set(rep.functions)
